@@ -435,6 +435,21 @@ func c09(c *Ctx) {
 						if cc.IsInvoke() && cc.Method.Name() == "Close" && t2[cc.Value] {
 							closed = true
 						}
+						// the listener handed to a helper of the package (go socket.acceptOne(listener)) that closes its parameter
+						if hf := cc.StaticCallee(); hf != nil && InRepo(hf) && hf.Blocks != nil && PkgOf(hf) == PkgOf(fn) {
+							for ai, a := range cc.Args {
+								if !t2[a] || ai >= len(hf.Params) {
+									continue
+								}
+								t3 := Taint(hf, []ssa.Value{hf.Params[ai]}, TaintOpts{ThroughFields: true})
+								for _, c3 := range Calls(hf) {
+									c3c := c3.Common()
+									if c3c.IsInvoke() && c3c.Method.Name() == "Close" && t3[c3c.Value] {
+										closed = true
+									}
+								}
+							}
+						}
 						if f3 := cc.StaticCallee(); f3 != nil && f3.Name() == "Close" && len(cc.Args) > 0 && t2[cc.Args[0]] {
 							closed = true
 						}
